@@ -398,9 +398,6 @@ package res
 //@ ghostvar proc_rname string
 //@ ghostvar proc_method string
 //@
-//@ func (m *Mux) GetHandler(rname string) (mh *Match)
-//@   requires m != nil
-//@   modifies alloc, res.Match.Handler, res.Match.Listeners, res.Match.Params, res.Match.Group
 //@
 //@ func (s *Service) runWith(wid string, cb func())
 //@   requires s != nil && cb != nil
@@ -444,7 +441,7 @@ package res
 //@ spec func dotFree(s string) bool
 //@   = forall(k, 0, len(s), s[k] != '.')
 //@ func (s *Service) handleRequest(m *nats.Msg)
-//@   requires s != nil && m != nil && s.Mux != nil
+//@   requires s != nil && m != nil && muxOK(s.Mux)
 //@   modifies res.Service.rwork, res.Service.workqueue, alloc, res.Match.Handler, res.Match.Listeners, res.Match.Params, res.Match.Group, res.work.s, res.work.wid, res.work.queue, res.work.single, map:res.Service.rwork, elems:res.Service.workqueue, elems:res.work.queue, ghost.wst, ghost.qpos
 //@   callback onError benign
 //@   ghost call Service.runWith#1 before :: assert split.type: dotFree(rtype) && len(rtype) < len(m.Subject) && m.Subject[0:len(rtype)] == rtype && m.Subject[len(rtype)] == '.'
@@ -958,3 +955,47 @@ package res
 //@   ensures failed.nil: imp(!isNil(err), qnil == old(qnil) + 1)
 //@   ensures ok: imp(isNil(err), subopen == old(subopen) + 1 && qnil == old(qnil) && tqadded == old(tqadded) + 1)
 //@   ensures never: qcalls == old(qcalls)
+//@
+//@ # ================================================================ routing (C06)
+//@ props C06
+//@ # Representation invariant of the node tree (ghost state, relative to mount points so that it survives mounting):
+//@ #   isnode[n]  n is a node of a Mux tree
+//@ #   nr[n]      number of tokens from the last mount point (or the root of its Mux) down to n; 0 for a root
+//@ #   nlit[n]    n is reached through literal tokens only (mount points are: Mount paths have no placeholders)
+//@ # At lookup, params and group tags of the matched node are read at token index idx + mountIdx: both are < nr[n].
+//@ ghostvar isnode arrb
+//@ ghostvar nr arr
+//@ ghostvar nlit arrb
+//@ pred nodeOK(c *node) = nr[ref(c)] >= 0 && imp(c.mounted, nr[ref(c)] == 0 && nlit[ref(c)] && len(c.params) == 0)
+//@     && forall(k, 0, len(c.params), 0 <= c.params[k].idx && c.params[k].idx < nr[ref(c)])
+//@     && imp(c.hs != nil, forall(k, 0, len(c.hs.group), imp(len(c.hs.group[k].str) == 0, 0 <= c.hs.group[k].idx && c.hs.group[k].idx < nr[ref(c)])))
+//@ pred childOK(l *node, c *node, literal bool) = c != nil && isnode[ref(c)] && nr[ref(c)] == ite(c.mounted, 0, nr[ref(l)] + 1) && imp(nlit[ref(c)], nlit[ref(l)] && literal)
+//@ pred nodeInv(n *node) = nodeOK(n) && imp(n.param != nil, childOK(n, n.param, false)) && imp(n.wild != nil, childOK(n, n.wild, false))
+//@     && forallint(k, imp(mapHasId(n.nodes, k), childOK(n, mapValId(n.nodes, k), true)))
+//@ pred WF() = forallobj(n, isnode[n], nodeInv(asptr(n, "*res.node")))
+//@ pred muxOK(m *Mux) = m != nil && m.root != nil && isnode[ref(m.root)] && nr[ref(m.root)] == 0 && WF()
+//@
+//@ func (g group) toString(rname string, tokens []string) (s string)
+//@   requires tags: forall(k, 0, len(g), imp(len(g[k].str) == 0, 0 <= g[k].idx && g[k].idx < len(tokens)))
+//@   modifies alloc
+//@   loop 1 invariant -1 <= rangeindex && rangeindex < len(g) + 0 && forall(k, 0, len(g), imp(len(g[k].str) == 0, 0 <= g[k].idx && g[k].idx < len(tokens)))
+//@ func matchNode(l *node, toks []string, i int, mi int, nm *nodeMatch) (ok bool)
+//@   requires l != nil && isnode[ref(l)] && WF() && nm != nil && 0 <= mi && mi <= i && i < len(toks)
+//@   requires rel: imp(!l.mounted, i - mi == nr[ref(l)])
+//@   modifies *nm, alloc
+//@   ensures found: imp(ok, nm.n != nil && isnode[ref(nm.n)] && 0 <= nm.mountIdx && nm.mountIdx + nr[ref(nm.n)] <= len(toks))
+//@   ensures miss: imp(!ok, nm.n == old(nm.n))
+//@   ghost entry :: use open(l)
+//@   ghost loop 2 entry :: use open(n)
+//@   ghost loop 3 entry :: use open(n)
+//@   loop 1 invariant 0 <= i && i <= len(toks) && 0 <= mi && mi + nr[ref(l)] + 1 == i && WF() && l != nil && isnode[ref(l)] && nm != nil && imp(n != nil, childOK(l, n, true) || childOK(l, n, false)) && nm.n == old(nm.n)
+//@   loop 2 invariant -1 <= rangeindex && rangeindex < len(n.params) + 0 && i == len(toks) && 0 <= mi && mi + nr[ref(l)] + 1 == i && WF() && l != nil && isnode[ref(l)] && nm != nil && n != nil && (childOK(l, n, true) || childOK(l, n, false)) && nm.n == n && nm.mountIdx == mi && ref(nm.params) != 0
+//@   loop 3 invariant -1 <= rangeindex__2 && rangeindex__2 < len(n.params) + 0 && i <= len(toks) && 0 <= mi && mi + nr[ref(l)] + 1 == i && WF() && l != nil && isnode[ref(l)] && nm != nil && n != nil && childOK(l, n, false) && nm.n == n && nm.mountIdx == mi && ref(nm.params) != 0
+//@ func (m *Mux) GetHandler(rname string) (mh *Match)
+//@   requires muxOK(m)
+//@   modifies alloc, res.Match.Handler, res.Match.Listeners, res.Match.Params, res.Match.Group
+//@   # a name outside the path of the Mux matches nothing
+//@   ensures prefix: imp(mh != nil && len(m.path) > 0, (len(rname) == len(m.path) && rname == m.path) || (len(rname) > len(m.path) && rname[0:len(m.path)] == m.path && rname[len(m.path)] == '.'))
+//@   ghost entry :: use open(m.root)
+//@   ghost call matchNode#1 after :: use open(nm.n)
+//@   loop 1 invariant 0 <= start && start <= i && i <= len(subrname) && len(tokens) >= 0 && muxOK(m) && len(subrname) > 0 && ref(tokens) >= old(nextRef())
